@@ -329,17 +329,22 @@ contract(F, "ForestRuleExtractor._minimize_key", props=["C11"], lenient=True, al
                    "not same(self.rule_by_bucket[k], self.rule_by_bucket[l])))"],
          may_raise=["RuntimeError", "AssertionError", "IndexError"], asserts="raise",
          ensures=["len(self.rule_by_bucket[key]) == 0",
+                  # the other buckets are not touched
+                  "forall(lambda k=RuleBucket: (k in self.rule_by_bucket) == old(k in self.rule_by_bucket))",
+                  "forall(lambda k=RuleBucket: implies(k in self.rule_by_bucket and k != key, "
+                  "same(self.rule_by_bucket[k], old(self.rule_by_bucket[k])) and "
+                  "len(self.rule_by_bucket[k]) == old(len(self.rule_by_bucket[k]))))",
                   "len(self.needed_rules) >= n0",
                   "forall(lambda i: implies(0 <= i and i < n0, self.needed_rules[i] == old(self.needed_rules[i])))",
                   _NEW_NEC.format(lo="n0")],
          ghost_stmts={"before:expr#9": ['assert not last_result("ForestRuleExtractor._is_productive")', "nec = madd(nec, rk)"]},
-         loops={0: dict(invariant=["len(self.needed_rules) == n0", "not same(minimizing, self.needed_rules)",
+         loops={0: dict(invariant=["forall(lambda k=RuleBucket: implies(k in self.rule_by_bucket and k != key, same(self.rule_by_bucket[k], old(self.rule_by_bucket[k])) and len(self.rule_by_bucket[k]) == old(len(self.rule_by_bucket[k]))))", "forall(lambda k=RuleBucket: (k in self.rule_by_bucket) == old(k in self.rule_by_bucket))", "same(minimizing, old(self.rule_by_bucket[key]))", "len(self.needed_rules) == n0", "not same(minimizing, self.needed_rules)",
                                    "not same(maybe_useful, self.needed_rules)", "not same(maybe_useful, minimizing)",
                                    "forall(lambda i: implies(0 <= i and i < n0, self.needed_rules[i] == at('loop0', self.needed_rules[i])))"],
                         modifies=_MK_MODS),
                 1: dict(invariant=[], modifies=[]), 2: dict(invariant=[], modifies=[]),
                 3: dict(invariant=[], modifies=["*minimizing"]),
-                4: dict(invariant=["len(self.rule_by_bucket[key]) == 0", "len(self.needed_rules) >= n0",
+                4: dict(invariant=["forall(lambda k=RuleBucket: implies(k in self.rule_by_bucket and k != key, same(self.rule_by_bucket[k], old(self.rule_by_bucket[k])) and len(self.rule_by_bucket[k]) == old(len(self.rule_by_bucket[k]))))", "forall(lambda k=RuleBucket: (k in self.rule_by_bucket) == old(k in self.rule_by_bucket))", "same(minimizing, old(self.rule_by_bucket[key]))", "len(self.rule_by_bucket[key]) == 0", "len(self.needed_rules) >= n0",
                                    "forall(lambda i: implies(0 <= i and i < n0, self.needed_rules[i] == at('loop4', self.needed_rules[i])))",
                                    _NEW_NEC.format(lo="n0")],
                         modifies=_MK_MODS)},
@@ -361,3 +366,18 @@ contract(F, "TableMethod._increase_value", props=["C03"], lenient=True, aliases=
                 2: dict(invariant=[], modifies=["all:List(Opt(Int))", "*self._processing_queue"])},
          modifies=_TM_STATE + _TM_FUN,
          notes="the shift-table updates of this function are not stated (index structures are untracked); only the gap")
+
+# ---------------------------------------------------------------- C11: _minimize -- REVERSE rules are minimised first
+# (so a reverse rule survives only if the specification needs it whatever forward rules are still available)
+contract(F, "ForestRuleExtractor._minimize", props=["C11"], lenient=True, aliases=dict(FAL, RuleBucket=Bucket),
+         params={"self": Obj("ForestRuleExtractor")},
+         ghost={"nec": Map(ForestRuleKey, Bool), "n0": Int},
+         assume_call_pre=["ForestRuleExtractor._minimize_key"],
+         call_requires={"ForestRuleExtractor._minimize_key": [
+             # first REVERSE, then NORMAL, EQUIV, VERIFICATION -- nothing is minimised before the reverse rules
+             "implies(_i0 == 0, key == bucket('REVERSE'))", "implies(_i0 == 1, key == bucket('NORMAL'))",
+             "implies(_i0 == 2, key == bucket('EQUIV'))", "implies(_i0 == 3, key == bucket('VERIFICATION'))", "_i0 <= 3"]},
+         may_raise=["RuntimeError", "AssertionError", "IndexError"],
+         loops={0: dict(invariant=[], modifies=_MK_MODS)},
+         modifies=_MK_MODS,
+         notes="order of minimisation")
